@@ -75,7 +75,8 @@ Inductive expr :=
 | ENull
 | EPtrVar (p : expr)                         (* value of the pointer-valued member variable at address p *)
 | EPtrEq (a b : expr)                        (* a == b for two pointers (same object and offset, or both null) *)
-| EPtrCell (p : expr).                       (* value of the pointer stored at address p inside an object (key ptr_key) *)
+| EPtrCell (p : expr)                        (* value of the pointer stored at address p inside an object (key ptr_key) *)
+| EElem (p i : expr).                        (* the i-th object of an array of class objects: prefix "<array>[<i>]." *)
 
 Inductive stmt :=
 | SSkip
@@ -98,7 +99,10 @@ Inductive stmt :=
 | SSetPtr (p : expr) (e : expr)              (* pointer-valued member variable at address p := e *)
 | SNewObj (x : string) (cls : string) (objs : list (string * ity * Z)) (ctor : option string) (args : list expr)
                                              (* x = new cls(args): a fresh object prefix with the members objs, its dynamic class, then the constructor *)
-| SSetPtrCell (p : expr) (e : expr).         (* the pointer stored at address p inside an object := e *)
+| SSetPtrCell (p : expr) (e : expr)          (* the pointer stored at address p inside an object := e *)
+| SNewObjArr (x : string) (cls : string) (objs : list (string * ity * Z)) (n : expr).
+                                             (* x = new cls[n]: n objects with prefixes "#<k>[i]." (the translator emits the loop
+                                                that runs the default constructor on each element) *)
 
 Record func := { f_params : list string; f_body : stmt }.
 Definition program := list (string * func).
@@ -285,6 +289,12 @@ Fixpoint eval (s : state) (e : expr) : res value :=
       | VNull, VNull => Ok (VInt 1)
       | VNull, VPtr _ _ | VPtr _ _, VNull => Ok (VInt 0)
       | _, _ => UB "comparison of a pointer with an integer"
+      end
+  | EElem p i =>
+      do v <- eval s p; do iv <- eval s i; do n <- as_int iv;
+      match v with
+      | VPtr o _ => Ok (VPtr (o ++ "[" ++ z_string n ++ "].")%string 0)
+      | _ => UB "element of a non-array"
       end
   | EPtrCell p => do v <- eval s p;
                   match v with
@@ -754,6 +764,19 @@ Fixpoint exec (fuel : nat) (st : stmt) (s : state) {struct fuel} : res (outcome 
           | VPtr o off => Ok (Normal, with_ptrs s (lset (ptrs s) (ptr_key o off) ev))
           | _ => UB "pointer cell of a non-object"
           end
+      | SNewObjArr x cls objs n =>
+          do nv <- eval s n; do cnt <- as_int nv;
+          if (cnt <? 0) || (4096 <? cnt) then UB "new[]: element count" else
+          let base := ("#" ++ nat_string (fresh s))%string in
+          let fix build (k : nat) (i : Z) (m : memory) (ps : list (string * value)) {struct k} : memory * list (string * value) :=
+            match k with
+            | O => (m, ps)
+            | S k' =>
+                let name := (base ++ "[" ++ z_string i ++ "].")%string in
+                build k' (i + 1) (alloc_objs cls name objs m) (lset ps (class_key name) (VPtr cls 0))
+            end in
+          let '(m', ps') := build (Z.to_nat cnt) 0 (mem s) (ptrs s) in
+          Ok (Normal, {| mem := m'; loc := lset (loc s) x (VPtr base 0); pre := pre s; files := files s; ptrs := ps'; fresh := S (fresh s) |})
       end
   end.
 
